@@ -3,6 +3,7 @@ package coder
 import (
 	"encoding/binary"
 	"errors"
+	"fmt"
 	stdmath "math"
 
 	"github.com/plgd-dev/go-coap/v3/message"
@@ -89,6 +90,10 @@ func (c *Coder) Encode(m message.Message, buf []byte) (int, error) {
 
 	if len(m.Token) > message.MaxTokenSize {
 		return -1, message.ErrInvalidTokenLen
+	}
+	if m.Code > 0xff {
+		// the header has one byte for the code: a larger value would be truncated
+		return -1, fmt.Errorf("invalid Code(%v)", uint16(m.Code))
 	}
 
 	payloadLen := len(m.Payload)
